@@ -53,10 +53,10 @@ impl Check for C26 {
         tier.pick(1500, 100_000)
     }
     fn rule(&self) -> String {
-        "case = a seeded multi-replica history of list and text edits; at a random point cursors (both move modes, plus Start/End) are taken on a replica at every sampled element boundary of its lists and texts — the harness identifies the element through its own RGA layout (REF, tombstones and insertion parents included) — then the program continues (local edits, deletes of the cursor's element and of its neighbours, overwrites, concurrent inserts, merges). Checked: get_cursor_position(get_cursor(i)) = i when taken; later, on the same replica and on the merged document, the position equals the property's wording evaluated on the REF layout of that document (visible ⇒ current index; deleted+After ⇒ index of the next surviving element or the length; deleted+Before ⇒ index of the nearest surviving insertion-chain predecessor or 0); at the heads the cursor was taken at, the historical position is still i; Start/End resolve to 0/length; cursors survive to_bytes/to_string round trips. Non-trivial = the cursor's element was deleted, or the cursor is resolved after a merge or at historical heads; distinct by (layout, move mode, element).".into()
+        "case = a seeded multi-replica history of list and text edits; at a random point cursors (both move modes, plus Start/End) are taken on a replica at every sampled element boundary of its lists and texts — the harness identifies the element through its own RGA layout (REF, tombstones and insertion parents included) — then the program continues (local edits, deletes of the cursor's element and of its neighbours, overwrites, concurrent inserts, merges). Checked: get_cursor_position(get_cursor(i)) = i when taken; later, on the same replica and on the merged document, the position equals the property's wording evaluated on the REF layout of that document (visible ⇒ current index; deleted+After ⇒ index of the next surviving element or the length; deleted+Before ⇒ index of the nearest surviving insertion-chain predecessor or 0); at the heads the cursor was taken at, the historical position is still i; up to 6 checkpoints are taken on the replica while the program continues (heads then + the position the wording gives then, which the current read must already show) and at the end the merged document must resolve every cursor at each checkpoint's heads to the position recorded then (elements deleted at those heads included); elements under cursors are overwritten concurrently on several replicas; Start/End resolve to 0/length; cursors survive to_bytes/to_string round trips. Non-trivial = the cursor's element was deleted, or the cursor is resolved after a merge or at historical heads; distinct by (layout, move mode, element).".into()
     }
     fn required_counters(&self) -> Vec<&'static str> {
-        vec!["cursors_taken", "resolved_visible", "resolved_deleted_after", "resolved_deleted_before", "resolved_after_merge", "resolved_at_historical_heads", "start_end_cursors", "cursor_serialization_roundtrips"]
+        vec!["cursors_taken", "resolved_visible", "resolved_deleted_after", "resolved_deleted_before", "resolved_after_merge", "resolved_at_historical_heads", "resolved_at_checkpoint", "resolved_at_checkpoint_heads_later", "start_end_cursors", "cursor_serialization_roundtrips"]
     }
     fn run_case(&self, cx: &mut Ctx, _case: u64, rng: &mut Rng) {
         let enc = enc_for(rng);
@@ -133,8 +133,46 @@ impl Check for C26 {
         }
         // continue: target the cursor elements and their neighbours with deletes
         let steps = rng.range(5, cx.tier.pick(40, 100));
-        for _ in 0..steps {
-            if rng.chance(25) {
+        // checkpoints on replica r: (heads then, expected position of every cursor then, by REF)
+        let mut checkpoints: Vec<(Vec<ChangeHash>, Vec<Option<usize>>)> = vec![];
+        for step in 0..steps {
+            if step % 9 == 8 && checkpoints.len() < 6 {
+                w.commit(r);
+                let hk = w.docs[r].get_heads();
+                let rf = build_ref(&w.docs[r].get_changes(&[]), enc);
+                let mut exp: Vec<Option<usize>> = vec![];
+                for t in &taken {
+                    let e = rf.seq_layout(&exid_str(&t.obj)).and_then(|l| expected_position(&l, &t.elem, t.before_mode));
+                    // the current read must already agree (same oracle as at the end, at one more point in time)
+                    if let Some(want) = e {
+                        cx.count("resolved_at_checkpoint");
+                        match w.docs[r].get_cursor_position(&t.obj, &t.cursor, None) {
+                            Ok(p) if p == want => {}
+                            other => {
+                                cx.violation("cursor-position|checkpoint", format!("replica {r} at a checkpoint: cursor on element {} of {} (move {}) resolves to {other:?}, expected {want}", t.elem, exid_str(&t.obj), if t.before_mode { "Before" } else { "After" }), json!({"log": tail(&w.log, 30)}));
+                                return;
+                            }
+                        }
+                    }
+                    exp.push(e);
+                }
+                checkpoints.push((hk, exp));
+            }
+            if rng.chance(12) {
+                // overwrite the element under a cursor on a random replica (concurrent overwrites of
+                // one element, later deletes by a replica that has not seen the other value)
+                let t = rng.pick(&taken);
+                let rr = rng.below(n);
+                let d = &mut w.docs[rr];
+                use automerge::transaction::Transactable;
+                if let Ok(i) = d.get_cursor_position(&t.obj, &t.cursor, None) {
+                    if i < d.length(&t.obj) {
+                        let is_text = matches!(d.object_type(&t.obj), Ok(ObjType::Text));
+                        let r2 = if is_text { d.put(&t.obj, i, "q") } else { d.put(&t.obj, i, 77) };
+                        w.logln(format!("R{rr}: put({}, {i}, ..) [under cursor] -> {}", exid_str(&t.obj), r2.is_ok()));
+                    }
+                }
+            } else if rng.chance(25) {
                 // delete around a cursor position on a random replica
                 let t = rng.pick(&taken);
                 let rr = rng.below(n);
@@ -201,6 +239,23 @@ impl Check for C26 {
                         }
                     }
                 }
+            }
+        }
+        // historical resolution: on the merged document (which holds later edits of every replica),
+        // at the heads of each checkpoint every cursor must resolve where the property's wording put
+        // it at that time
+        for (hk, exp) in &checkpoints {
+            for (t, e) in taken.iter().zip(exp.iter()) {
+                let Some(want) = e else { continue };
+                cx.count("resolved_at_checkpoint_heads_later");
+                match m.get_cursor_position(&t.obj, &t.cursor, Some(hk)) {
+                    Ok(p) if p == *want => {}
+                    other => {
+                        cx.violation(&format!("cursor-position|historical-checkpoint|{}", if t.before_mode { "before" } else { "after" }), format!("merged document at the heads of an earlier checkpoint: cursor on element {} of {} (move {}) resolves to {other:?}, it was at {want} when those heads were current", t.elem, exid_str(&t.obj), if t.before_mode { "Before" } else { "After" }), json!({"heads": hash_hex(hk), "log": tail(&log, 40)}));
+                        return;
+                    }
+                }
+                cx.nontrivial(fnv(format!("ck{}{}{:?}", t.elem, t.before_mode, hk).as_bytes()));
             }
         }
         let _ = &mut m;
